@@ -29,10 +29,12 @@ def head_aliases(node: ast.AST, var_src: str) -> Set[str]:
                 out.add(name)
                 grew = True
     _NODE_ALIASES[(id(node), var_src)] = nodes
+    _PINNED.append(node)
     return out
 
 
 _NODE_ALIASES: dict = {}
+_PINNED: list = []
 
 
 def node_aliases(binds, var_src: str) -> Set[str]:
